@@ -2,6 +2,7 @@ import NA.Proofs.VpnGraphFinal
 import NA.Proofs.VpnGraphRefs
 import NA.Proofs.VpnGraphFuel
 import NA.Proofs.VpnGraphStable
+import NA.Proofs.VpnCert
 /-!
 # Named object graphs of the ASA backend (fragment G): usernames, address-named tunnel-groups, group-policies,
 access-lists kept or replaced as a whole, ip local pools, aaa-servers
@@ -282,7 +283,73 @@ example : view shA = view shB ∧ script shA shB = some ["group-policy G2-DRC-0 
     ((engine shA shB).bind (execAll { objs := shA })).map (fun d => (view d.objs == view shB, script d.objs shB)) = some (true, some []) := by
   decide
 
+/-! ## Fragment H: certificate maps, `tunnel-group-map`, toplevel `webvpn` / `certificate-group-map`
+
+Model `NA.Vpn.G.runH` (NA/Model/VpnGraphCert.lean: `diffTunnelGroupMap` / `diffWebVPN` = `diffCmds` with the key `byCertMapKey`),
+strict device `execAllH` (NA/Model/VpnGraphCertDev.lean); compared with the real code and harness/asavpn/dev.go by driver op `H`. -/
+
+/-- **Create-before-reference for the whole change list of fragment H** (C08).  For well-formed pairs (`wfhB`, decidable:
+`wfB` and `kindByKeyB` for the objects, every rule references a certificate map and a tunnel-group that exist, rules with the
+same key have the same shape) every added sub-command that carries a reference, every `tunnel-group-map` rule and every
+`certificate-group-map` rule of the part before the clean-up names objects that exist at that point (on the device from the start
+or created by an earlier command), and that part deletes no object.  `refsOKH` scans the list with the set of existing objects. -/
+theorem cert_refs_created_first (a b : Cfg) (hw : wfhB a b = true) (hb : HSt) (he : bodyH a b = some hb) :
+    refsOKH (a.objs.map (·.id)) hb.all = true ∧ ∀ c ∈ hb.all, isDelH c = false :=
+  body_refs_existH a b (wfh_of_wfhB a b hw) hb he
+
+/-- **`exit` before toplevel `webvpn`** (C08; the mechanism of the former finding F-VPN-webvpn, fixed in /repo 22978d1).
+(1) `setCmdConfMode("webvpn")` appends nothing if that mode is open, else `exit` (if any mode is open) and `webvpn`.
+(2) A new toplevel `webvpn` (device has none): after the transfer of what its rules reference the engine appends `exit` — exactly
+if the mode it has open is a group-policy's or a username's — then `webvpn`, then the rules.
+(3) The strict device takes toplevel `webvpn` exactly when no group-policy / username mode is open, and (4) after `exit` no
+mode of fragment G is open.  (That the engine's idea of the open mode is the device's: `graph_body_targets` for fragment G.) -/
+theorem cert_webvpn_exit_first :
+    (∀ (h : HSt), h.out = [] →
+      h.setWeb.all = h.all ++ (if h.mode == some webMode then [] else
+        (if h.mode.isSome then [Cmd2.g .exit] else []) ++ [Cmd2.h .webvpn]) ∧ h.setWeb.mode = some webMode) ∧
+    (∀ (h h' : HSt) (bl : List Rule), diffWeb h none (some bl) = some h' →
+      ∃ h1 t, bl.foldl (fun (acc : Option HSt) r => acc.bind fun h => followRule h r) (some h) = some h1 ∧ (h1.out = [] →
+        h'.all = h1.all ++ (if inGpUser h1.mode then [Cmd2.g .exit] else []) ++ [Cmd2.h .webvpn] ++ t)) ∧
+    (∀ x : HDev, (execH1 x (.h .webvpn)).isSome = !inGpUser x.d.mode) ∧
+    (∀ x x' : HDev, execH1 x (.g .exit) = some x' → x.wmode = false → x'.d.mode = none) :=
+  ⟨setWeb_all, diffWeb_new_all, exec_webvpn, exec_exit_mode⟩
+
+/-- the scenario of the former finding F-VPN-repoint: the `certificate-group-map` rule of the device is matched by subject-name
+with the target's rule whose certificate map has just been transferred under a new name for the `tunnel-group-map` rule -/
+def rpA : Cfg := {
+  objs := [
+    { kind := .certmap, name := "ca-map-1-DRC-0", drc := true, secs := [{ head := "10", mode := true, subs := [sPlain "subject-name attr ea co @sub1.example.com"] }] },
+    { kind := .tg, name := "VPN-tunnel-1-DRC-0", drc := true, secs := [{ head := "type remote-access" }] }],
+  web := some [{ cm := some "ca-map-1-DRC-0", seq := "10", tg := "VPN-tunnel-1-DRC-0" }] }
+def rpB : Cfg := {
+  objs := [
+    { kind := .certmap, name := "ca-map-1", secs := [{ head := "10", mode := true, subs := [sPlain "subject-name attr ea co @sub1.example.com"] }] },
+    { kind := .tg, name := "VPN-tunnel-1", secs := [{ head := "type remote-access" }] }],
+  tgmap := [{ cm := some "ca-map-1", seq := "10", tg := "VPN-tunnel-1" }],
+  web := some [{ cm := some "ca-map-1", seq := "10", tg := "VPN-tunnel-1" }] }
+
+set_option maxRecDepth 8000 in
+/-- with the fix (/repo 7dca37c, mirrored by `equalRule` / `cmChanged`): the old rule is removed first; accepted, converged, stable -/
+example : scriptH rpA rpB = some [
+    "crypto ca certificate map ca-map-1-DRC-1 10", "subject-name attr ea co @sub1.example.com",
+    "tunnel-group VPN-tunnel-1-DRC-1 type remote-access", "tunnel-group-map ca-map-1-DRC-1 10 VPN-tunnel-1-DRC-1",
+    "webvpn", "no certificate-group-map ca-map-1-DRC-0 10 VPN-tunnel-1-DRC-0",
+    "certificate-group-map ca-map-1-DRC-1 10 VPN-tunnel-1-DRC-1", "exit",
+    "clear configure crypto ca certificate map ca-map-1-DRC-0", "clear configure tunnel-group VPN-tunnel-1-DRC-0"] ∧
+    wfhB rpA rpB = true ∧
+    ((engineH rpA rpB).bind (execAllH (HDev.ofCfg rpA))).map (fun x => (viewH x.cfg == viewH rpB, scriptH x.cfg rpB)) =
+      some (true, some []) := by decide
+
+set_option maxRecDepth 8000 in
+/-- **F-VPN-repoint inside the model**: the same change list WITHOUT the `no certificate-group-map …` line (what the code emitted
+before the fix) is refused by the strict device — the old rule still names the certificate map when it is cleared. -/
+theorem cert_repoint_counterexample :
+    ((engineH rpA rpB).map fun l => l.filter fun c => c != Cmd2.h (.cgm true { cm := some "ca-map-1-DRC-0", seq := "10", tg := "VPN-tunnel-1-DRC-0" })).bind
+      (execAllH (HDev.ofCfg rpA)) = none ∧
+    ((engineH rpA rpB).bind (execAllH (HDev.ofCfg rpA))).isSome = true := by decide
+
 def obligations : List Lean.Name := [
+  ``cert_refs_created_first, ``cert_webvpn_exit_first, ``cert_repoint_counterexample,
   ``graph_unchanged_only_if_equivalent, ``graph_converges_partial, ``graph_fuel_suffices, ``graph_cleanup_accepted, ``graph_refs_created_first, ``graph_exec_frame, ``graph_body_targets, ``graph_unmanaged_untouched,
   ``graph_untagged_not_pending, ``graph_chain_protected]
 
